@@ -48,6 +48,7 @@ CFG = {
         "Swat4.C09.facts_record_reads_fenced",
         "Swat4.C09.facts_fence_check",
         "Swat4.C09.facts_write_keys",
+        "Swat4.C09.facts_decode_plain",
     ],
     "shards": (4, 16),
     "nontrivial": _c09_nontrivial,
